@@ -2,7 +2,7 @@
 # tools/try_seed.sh <patch.diff> <Cxx> [<Cxx>...] [-- tier]
 # Applies a seeded change to /repo, runs the named quick checks, and always reverts.
 set -u
-patch="$1"; shift
+patch="$(readlink -f "$1")"; shift
 tier=quick
 checks=()
 while [ $# -gt 0 ]; do
